@@ -5,7 +5,7 @@ and record the outcome in seeded/<ID>-mN/meta.json and seeded/MATRIX.json."""
 import json, os, re, shutil, subprocess, sys, tempfile, time
 
 VERIF = "/verif"
-names = sys.argv[1:] or sorted(d for d in os.listdir(os.path.join(VERIF, "seeded")) if re.match(r"C\d+-(r2)?m\d+$", d))
+names = sys.argv[1:] or sorted(d for d in os.listdir(os.path.join(VERIF, "seeded")) if re.match(r"C\d+-(r\d)?m\d+$", d))
 matrix_path = os.path.join(VERIF, "seeded", "MATRIX.json")
 matrix = json.load(open(matrix_path)) if os.path.exists(matrix_path) else {}
 for name in names:
